@@ -256,10 +256,15 @@ fn one_case(prop: &str, g: &mut Gen, cx: &mut Ctx) {
                     // (year/month/day, year/day-of-year, text): whatever day number such a date
                     // reports, its label must be that day's Julian label below R and its Gregorian
                     // label from R on, and its style flags must say which
+                    let shape = cal.month_shape(d.year(), d.month());
                     let built = [
                         cal.at_ymd(d.year(), d.month(), d.day()).ok(),
                         cal.at_ordinal_date(d.year(), d.ordinal()).ok(),
                         cal.parse_date(&d.to_string()).ok(),
+                        // the same day as the month's shape and its iterator hand it out
+                        shape.and_then(|s| s.nth_date(d.day_ordinal())),
+                        shape.and_then(|s| s.dates().nth((d.day_ordinal() - 1) as usize)),
+                        shape.and_then(|s| s.dates().rev().find(|x| x.day() == d.day())),
                     ];
                     for x in built.iter().flatten() {
                         let xj = i64::from(x.julian_day_number());
